@@ -249,6 +249,11 @@ func lookupAll(f *fox.Router, cur *served, method, host, path string) (res strin
 	if len(diffs) > 0 {
 		oracle = "entry points disagree on " + method + " host=" + hx(host) + " path=" + hx(path) + ": Lookup=" + res + " " + strings.Join(diffs, " ")
 	}
+	// the result also names the handler registered last for the route (an Update must show through every node the matcher
+	// reaches the route by: leaf, precomputed infix sub-node)
+	if rte != nil {
+		res += "#" + hidOf(rte)
+	}
 	return
 }
 
